@@ -19,6 +19,7 @@ mod settings;
 mod unreal2;
 mod valve;
 mod views;
+mod minecraft;
 
 use std::io::{BufRead, Write};
 use std::panic::{catch_unwind, AssertUnwindSafe};
@@ -39,6 +40,7 @@ fn entries() -> Vec<(&'static str, EntryFn)> {
     v.extend(quake::entries());
     v.extend(real::entries());
     v.extend(unreal2::entries());
+    v.extend(minecraft::entries());
     v
 }
 
